@@ -898,8 +898,10 @@ class ExcelFormula:
             """
             if exc:
                 capture_error_state(exc, msg)
-                assert 1 == len(error_messages)
             trace, msg = error_messages.pop()
+            # operator errors (#DIV/0!, #VALUE!) captured earlier in the same
+            # formula must not outlive this evaluation
+            del error_messages[:]
             fmt_str = "{0}Eval: {1}" if msg is None else "{0}Eval: {1}\n{2}"
             error_msg = fmt_str.format(trace, python_code, msg)
             getattr(logger, level)(error_msg)
